@@ -395,6 +395,51 @@ impl World {
         self.warm_writes += (self.ctl.log_len().saturating_sub(n0)) as u64;
     }
 
+    /// Last step of a case: graceful shutdown, then a start over the same store WITHOUT an admin
+    /// key (the keyless loopback mode, in which every caller is the administrator). While any
+    /// per-database binding exists - also of a closed database, `db.close` keeps it - such a start
+    /// would turn every bound key into "no key at all". Returns what an unauthenticated caller is
+    /// answered when it opens and reads each bound database, if the start was accepted.
+    pub async fn keyless_probe(&mut self, close_bound_first: bool) -> Option<Vec<(String, u16, u16, String)>> {
+        if close_bound_first {
+            // `db.close` keeps the binding and takes the database out of the reopen registry
+            let open_bound: Vec<String> = self.model.dbs.iter().filter(|(_, d)| d.key.is_some() && d.open).map(|(n, _)| n.clone()).collect();
+            for name in open_bound {
+                let (st, _) = self.admin("/", "db.close", json!({"name": name})).await;
+                if st == 200 {
+                    if let Some(d) = self.model.dbs.get_mut(&name) {
+                        d.open = false;
+                    }
+                }
+            }
+        }
+        self.state.shutdown().await;
+        let primary = self.model.name(RP);
+        let mut opt = options(primary, RP);
+        opt.api_key = None;
+        let state = AppState::connect(self.store.clone(), opt).await.ok()?;
+        self.app = build_router(state.clone());
+        self.state = state;
+        let mut out = vec![];
+        let bound: Vec<String> = self.model.dbs.iter().filter(|(_, d)| d.key.is_some()).map(|(n, _)| n.clone()).collect();
+        for name in bound {
+            let mut ask = |path: String, method: &str, params: Value| Req {
+                verb: "POST",
+                path,
+                auth: None,
+                ct: Some(Wire::Cbor.mime().to_string()),
+                accept: None,
+                body: Wire::Cbor.encode(&json!({"method": method, "params": params})),
+            };
+            let q1 = ask("/".to_string(), "db.open", json!({"name": name}));
+            let r1 = self.send(&q1).await;
+            let q2 = ask(format!("/{name}"), "info", json!({}));
+            let r2 = self.send(&q2).await;
+            out.push((name, r1.status, r2.status, String::from_utf8_lossy(&r2.body).chars().filter(|c| !c.is_control()).take(160).collect()));
+        }
+        Some(out)
+    }
+
     /// Clean restart: graceful shutdown, then a new `AppState` over the same store.
     pub async fn restart(&mut self) -> Result<(), String> {
         self.state.shutdown().await;
